@@ -406,3 +406,49 @@ package scale
 //@   ensures [no-collapse] (s.Min == old(s.Min) && s.Max == old(s.Max)) || s.Min < s.Max
 //@   ensures [frame]       s.Base == old(s.Base) && s.Clamp == old(s.Clamp)
 //@   assigns *s
+
+// Log.Nice once more in exact real arithmetic (no overflow): the new domain is
+// the rounded-out tick range of the finest level whose rounded-out tick count
+// is at most o.Max; the domain is left alone only if it is degenerate, no
+// level fits, or the rounded-out range is not a proper interval.
+//@ spec lgcnto(s Log, level int) float64 = lglast(s, level, true) - lgfirst(s, level, true) + 1
+//@ func Log.Nice@real
+//@   model real
+//@   abstract lebase, lgfirst, lglast
+//@   requires s != nil && logdom(*s) && o.Max < 9223372036854775807
+//@   requires [monotone]  forall a int, b int :: 0 <= a && a <= b ==> lgcnto(*s, a) >= lgcnto(*s, b)
+//@   requires [countable] forall a int :: a >= 0 ==> lgcnto(*s, a) <= 9223372036854775807
+//@   let s0 = *s
+//@   let lo = (o.MinLevel == 0 && o.MaxLevel == 0) ? -1000 : o.MinLevel
+//@   let hi = (o.MinLevel == 0 && o.MaxLevel == 0) ? 1000 : o.MaxLevel
+//@   ensures [frame] s.Base == old(s.Base) && s.Clamp == old(s.Clamp)
+//@   check @ret1 [degenerate] s0.Min == s0.Max && s.Min == s0.Min && s.Max == s0.Max
+//@   check @ret2 [none-fits]  s.Min == s0.Min && s.Max == s0.Max && (o.Max < 1 || lo > hi || hi < 0 || (forall m in max(lo, 0)..hi+1 :: lgcnto(s0, m) > o.Max))
+//@   check @ret3 [improper]   s.Min == s0.Min && s.Max == s0.Max && level >= 0 && !(0 < pow(lebase(s0, level), lgfirst(s0, level, true)) && pow(lebase(s0, level), lgfirst(s0, level, true)) < pow(lebase(s0, level), lglast(s0, level, true)))
+//@   check @ret4 [level]      0 <= level && lo <= level && level <= hi && lgcnto(s0, level) <= o.Max
+//@   check @ret4 [finest]     forall m in max(lo, 0)..level :: lgcnto(s0, m) > o.Max
+//@   check @ret4 [bounds-pos] s0.Min > 0 ==> s.Min == pow(lebase(s0, level), lgfirst(s0, level, true)) && s.Max == pow(lebase(s0, level), lglast(s0, level, true))
+//@   check @ret4 [bounds-neg] s0.Min < 0 ==> s.Min == -pow(lebase(s0, level), lglast(s0, level, true)) && s.Max == -pow(lebase(s0, level), lgfirst(s0, level, true))
+//@   assigns *s
+
+// Linear.Nice in exact real arithmetic: the new domain is the rounded-out tick
+// range of the finest level whose rounded-out tick count is at most o.Max
+// (after widening a degenerate domain by 0.5 each way / ordering the bounds);
+// it is left at that normalised domain only if no level fits.
+//@ spec lcnto(s Linear, level int) float64 = llast(s, level, true) - lfirst(s, level, true) + 1
+//@ spec lnice0(s Linear) Linear = s.Min == s.Max ? Linear{s.Min - 0.5, s.Max + 0.5, s.Base, s.Clamp} : (s.Min > s.Max ? Linear{s.Max, s.Min, s.Base, s.Clamp} : s)
+//@ func Linear.Nice@real
+//@   model real
+//@   abstract lsp, lfirst, llast
+//@   requires s != nil && (s.Base == 0 || s.Base >= 2)
+//@   requires [monotone] forall a int, b int :: a <= b ==> lcnto(lnice0(*s), a) >= lcnto(lnice0(*s), b)
+//@   let n0 = lnice0(*s)
+//@   let lo = (o.MinLevel == 0 && o.MaxLevel == 0) ? -1000 : o.MinLevel
+//@   let hi = (o.MinLevel == 0 && o.MaxLevel == 0) ? 1000 : o.MaxLevel
+//@   ensures [frame] s.Base == old(s.Base) && s.Clamp == old(s.Clamp)
+//@   check @ret1 [none-fits]  s.Min == n0.Min && s.Max == n0.Max && (o.Max < 1 || lo > hi || (forall m in lo..hi+1 :: lcnto(n0, m) > o.Max))
+//@   check @ret2 [overflow-exit] s.Min == n0.Min && s.Max == n0.Max
+//@   check @ret3 [level]      lo <= level && level <= hi && lcnto(n0, level) <= o.Max
+//@   check @ret3 [finest]     forall m in lo..level :: lcnto(n0, m) > o.Max
+//@   check @ret3 [bounds]     s.Min == lfirst(n0, level, true) * lsp(n0, level) && s.Max == llast(n0, level, true) * lsp(n0, level)
+//@   assigns *s
